@@ -22,7 +22,7 @@ func (fr *Frame) execCall(st *State, c *ssa.CallCommon, in ssa.Instruction, pos 
 		args = append(args, fr.val(st, a))
 	}
 	sig := c.Signature()
-	fr.countCall(st, calleeName(c), in, pos)
+	fr.countCall(st, calleeName(c), in, pos, args)
 	if c.IsInvoke() {
 		recv := fr.val(st, c.Value)
 		if _, isMI := c.Value.(*ssa.MakeInterface); !isMI {
@@ -1365,6 +1365,55 @@ func init() {
 		u.hset(st, "$lastjson", sStr, u.bytesStr(sel(h, sx("s_arr", b.T)), sx("s_off", b.T), sx("s_len", b.T)))
 		u.note("library model: encoding/json.Marshal (uninterpreted bytes, recorded in $lastjson)")
 		return []Val{b, e}, true
+	}
+	models["encoding/json.Unmarshal"] = func(fr *Frame, st *State, args []Val, in ssa.Instruction, pos token.Pos) ([]Val, bool) {
+		u := fr.u
+		// the decoder is outside the proof: it overwrites the struct its second argument points to with arbitrary well-formed
+		// values. Only flat targets are modelled (no pointer or map fields it could write through).
+		ci, ok := in.(ssa.CallInstruction)
+		if !ok || len(ci.Common().Args) != 2 {
+			return nil, false
+		}
+		mi, ok := ci.Common().Args[1].(*ssa.MakeInterface)
+		if !ok {
+			return nil, false
+		}
+		pt, ok := mi.X.Type().Underlying().(*types.Pointer)
+		if !ok {
+			return nil, false
+		}
+		stt, ok := pt.Elem().Underlying().(*types.Struct)
+		if !ok {
+			return nil, false
+		}
+		var flat func(t types.Type) bool
+		flat = func(t types.Type) bool {
+			switch x := t.Underlying().(type) {
+			case *types.Basic:
+				return true
+			case *types.Slice:
+				return flat(x.Elem())
+			case *types.Struct:
+				for i := 0; i < x.NumFields(); i++ {
+					if !flat(x.Field(i).Type()) {
+						return false
+					}
+				}
+				return true
+			}
+			return false
+		}
+		if !flat(pt.Elem()) {
+			return nil, false
+		}
+		ref := fr.val(st, mi.X)
+		for i := 0; i < stt.NumFields(); i++ {
+			hn, hs, ft := fieldHeap(u, pt.Elem(), i)
+			u.markWrite(hn, ref.T)
+			u.hset(st, hn, hs, store(u.hget(st, hn, hs), ref.T, u.freshVal(st, "decoded", ft).T))
+		}
+		u.note("library model: encoding/json.Unmarshal (target struct havocked, flat targets only)")
+		return []Val{u.freshVal(st, "jsonerr", in.(ssa.Value).Type())}, true
 	}
 	models["reflect.DeepEqual"] = func(fr *Frame, st *State, args []Val, in ssa.Instruction, pos token.Pos) ([]Val, bool) {
 		u := fr.u
